@@ -166,8 +166,22 @@ func genPkt4(r *Rng, inDomain bool) *dhcpv4.DHCPv4 {
 		if r.Chance(1, 2) {
 			p.Options[77] = []byte("iPXE")
 		}
-		if r.Chance(1, 2) {
+		switch r.Intn(3) {
+		case 0:
 			p.ServerHostName, p.BootFileName = "", ""
+		case 1:
+			// the names given twice, in the header fields and as options 66 / 67, as PXE
+			// servers do - and, half of the time, a message beyond the 576-octet minimum
+			// (seeded change C07-16: "redundant" boot options shed from oversized messages)
+			if v := p.Options[66]; len(v) <= 63 && bytes.IndexByte(v, 0) < 0 {
+				p.ServerHostName = string(v)
+			}
+			if v := p.Options[67]; len(v) <= 127 && bytes.IndexByte(v, 0) < 0 {
+				p.BootFileName = string(v)
+			}
+			if r.Bool() {
+				p.Options[43] = r.Bytes(r.Pick([]int{330, 400, 700}))
+			}
 		}
 		p.OpCode = dhcpv4.OpcodeType(1 + r.Intn(2))
 		if r.Chance(1, 2) {
